@@ -42,7 +42,7 @@ func encodingEnabledFor(cfg *ChainCfg, r *ChainReq) bool {
 }
 
 func runC07(x *Ctx) {
-	k := chainKnobs{cancels: 40, maxFilters: 2, encoding: true, addCE: true, warm: true, panics: 200, errors: true, plain: true, nested: true, maxPayload: 4096, filterWrites: true, early: true, wfaults: 80}
+	k := chainKnobs{swapbuf: true, cancels: 40, maxFilters: 2, encoding: true, addCE: true, warm: true, panics: 200, errors: true, plain: true, nested: true, maxPayload: 4096, filterWrites: true, early: true, wfaults: 80}
 	maxClients := 3
 	if x.Thorough() {
 		k.maxPayload = 200000
@@ -55,6 +55,7 @@ func runC07(x *Ctx) {
 	s.Preempt = sc.Cfg.Preempt
 	reqs := sc.all()
 	cr := newChainRun(s, sc.Cfg, reqs)
+	cr.age(s, sc)
 	runClients(s, cr, sc, nil)
 	if !s.Run() {
 		return
@@ -137,7 +138,7 @@ func checkEncoding(x *Ctx, sc *chainScen, reqs []*ChainReq) {
 		if cfg.Entry == "Nested" || cfg.Entry == "NestedFilter" {
 			x.Count("reach:encoded-through-nested-container")
 		}
-		if !strings.Contains(r.AE, ce[0]) {
+		if !strings.Contains(strings.ToLower(r.AE), ce[0]) { // coding names are case-insensitive (RFC 9110 8.4.1)
 			x.Violate("coding-not-accepted", "%s: encoded with %s", what, ce[0])
 		}
 		if !encodingEnabledFor(cfg, r) {
@@ -158,6 +159,15 @@ func checkEncoding(x *Ctx, sc *chainScen, reqs []*ChainReq) {
 		libWrites := tw.Panicked && cfg.Recover == 1
 		if t := targetEvent(cfg, r.Target); t == "" {
 			libWrites = true
+		}
+		swapped := false
+		for _, f := range cfg.effectiveFilters(r.Target) {
+			if f.Kind == "swapbuf" {
+				swapped = true // what sits in the buffer when a panic passes through is abandoned, not sent
+			}
+		}
+		if swapped && (tw.Panicked || r.CancelAt != "") {
+			continue
 		}
 		if !libWrites && !r.Early && !bytes.Equal(tw.W.Body, tw.App) {
 			x.Violate("infra-twin-mismatch", "request %d: twin body %d bytes, harness wrote %d", r.ID, len(tw.W.Body), len(tw.App))
